@@ -124,7 +124,7 @@ template <typename T> struct FixedArrayAtomicSize { static const Py_ssize_t valu
 
 template <> struct FixedArrayAtomicSize<short>                            { static const Py_ssize_t value = sizeof(short); };
 template <> struct FixedArrayAtomicSize<int>                              { static const Py_ssize_t value = sizeof(int); };
-template <> struct FixedArrayAtomicSize<int64_t>                          { static const Py_ssize_t value = sizeof(int); };
+template <> struct FixedArrayAtomicSize<int64_t>                          { static const Py_ssize_t value = sizeof(int64_t); };
 template <> struct FixedArrayAtomicSize<float>                            { static const Py_ssize_t value = sizeof(float); };
 template <> struct FixedArrayAtomicSize<double>                           { static const Py_ssize_t value = sizeof(double); };
 template <> struct FixedArrayAtomicSize<unsigned char>                    { static const Py_ssize_t value = sizeof(unsigned char); };
